@@ -38,6 +38,13 @@ Lemma swap_dep_eq x y done lx :
   swap_dep x y done lx = foldM (dep_body x y done) (∅, ∅) lx.
 Proof. reflexivity. Qed.
 
+Lemma xf_spec (XF : gset positive) (ip iq y : nat) (p q n : positive) :
+  n ∈ (if decide (iq = y)
+       then (if decide (ip = y) then XF ∪ {[p]} else XF) ∪ {[q]}
+       else (if decide (ip = y) then XF ∪ {[p]} else XF)) ↔
+  n ∈ XF ∨ (n = p ∧ ip = y) ∨ (n = q ∧ iq = y).
+Proof. repeat case_decide; set_solver. Qed.
+
 Section step.
 Context (s0 : st) (HI : Inv s0) (x : nat) (Hy : x + 1 < nvars s0).
 
@@ -160,8 +167,109 @@ Proof.
       destruct (Mid_low s0 x Hy sb T _ HMb Hv0 Lv0) as (Vb0&_&_).
       destruct (foa_res_valid sb _ _ _ _ Vb0 Hresp) as [Vpb _].
       rewrite <- (lvl_mono sb sc p Hsubc Vpb) in Hl.
-      repeat case_decide; set_solver.
-    + destruct (Hnewc n Hb Hn') as [-> Hl]. repeat case_decide; set_solver.
-  - intros n. rewrite !Hlvl. repeat case_decide; set_solver.
+      apply xf_spec. right. left. done.
+    + destruct (Hnewc n Hb Hn') as [-> Hl]. apply xf_spec. right. right. done.
+  - intros n. rewrite !Hlvl. apply xf_spec.
 Qed.
 End step.
+
+(** ** the loop *)
+Record DepInv (s0 : st) (x : nat) (L : positive → nat) (s : st)
+    (T G XF : gset positive) : Prop := {
+  di_mid : Mid s0 x s T;
+  di_counts : Counts s L;
+  di_G : ∀ n, n ∈ G → ∃ u v w, succ s0 !! u = Some (Triple x v w) ∧
+            ¬ indepS s0 (x + 1) v w ∧ u ∉ T ∧ (n = absn v ∨ n = absn w);
+  di_XF : ∀ n, n ∈ XF →
+     (∃ t, succ s !! n = Some t ∧ t_lvl t = x + 1) ∧
+     ∃ k t0 p q, succ s0 !! k = Some t0 ∧ t_lvl t0 = x ∧ k ∉ T ∧
+       succ s !! k = Some (Triple x p q) ∧ (n = absn p ∨ n = absn q);
+  di_new : ∀ n, succ s0 !! n = None → is_Some (succ s !! n) → n ∈ XF;
+}.
+
+Section fold.
+Context (s0 : st) (HI : Inv s0) (x : nat) (Hy : x + 1 < nvars s0).
+
+Lemma dep_body_done done G XF u v w s : u ∈ done →
+  dep_body x (x + 1) done (G, XF) (u, (v, w)) s = (Ok (G, XF), s).
+Proof. intros H. unfold dep_body. by rewrite decide_True. Qed.
+
+Lemma DepInv_step done L s T G XF u v w :
+  DepInv s0 x L s T G XF → u ∈ T → u ∉ done →
+  succ s0 !! u = Some (Triple x v w) →
+  ∃ s' G' XF', dep_body x (x + 1) done (G, XF) (u, (v, w)) s = (Ok (G', XF'), s') ∧
+    DepInv s0 x L s' (T ∖ {[u]}) G' XF'.
+Proof.
+  intros HD HuT Hud Hu0.
+  pose proof (di_mid _ _ _ _ _ _ _ HD) as HM.
+  destruct (dep_step s0 HI x Hy done s T L u v w G XF HM (di_counts _ _ _ _ _ _ _ HD)
+              HuT Hud Hu0) as (s'&p&q&XF'&Hrun&HM'&HC'&Hsu&Hkeep&Hnew&HXF).
+  destruct (dep_facts s0 HI x Hy u v w Hu0) as (Hu1&Hv&Hw&Hwp&Hne&Hlv&Hlw).
+  exists s', (G ∪ {[absn v]} ∪ {[absn w]}), XF'. split; [done|].
+  assert (HuT' : u ∉ T ∖ {[u]}) by set_solver.
+  destruct (m_node _ _ _ _ HM' u _ Hsu Hu1 HuT') as (_&Vp&_&Vq&_). cbn [t_lo t_hi] in Vp, Vq.
+  assert (Hus : is_Some (succ s !! u)).
+  { destruct (m_T _ _ _ _ HM u HuT) as (?&_&_&_&?). eauto. }
+  split; try done.
+  - assert (Hdep : ¬ indepS s0 (x + 1) v w).
+    { destruct (m_T _ _ _ _ HM u HuT) as (t&Ht&_&Hd&_). rewrite Hu0 in Ht.
+      by injection Ht as <-. }
+    intros n Hn. apply elem_of_union in Hn as [Hn|Hn];
+      [apply elem_of_union in Hn as [Hn|Hn]|].
+    + destruct (di_G _ _ _ _ _ _ _ HD n Hn) as (u'&v'&w'&?&?&?&?).
+      exists u', v', w'. split_and!; try done. set_solver.
+    + apply elem_of_singleton in Hn as ->. exists u, v, w. split_and!; auto.
+    + apply elem_of_singleton in Hn as ->. exists u, v, w. split_and!; auto.
+  - intros n Hn. apply HXF in Hn as [Hn|Hn].
+    + destruct (di_XF _ _ _ _ _ _ _ HD n Hn) as [(t&Ht&Hl) (k&t0&p'&q'&H0&Hl0&HkT&Hk&Hor)].
+      assert (n ≠ u).
+      { intros ->. destruct (m_T _ _ _ _ HM u HuT) as (t'&_&Hlx&_&Ht'). rewrite Ht in Ht'.
+        injection Ht' as ->. lia. }
+      assert (k ≠ u) by (intros ->; done).
+      split.
+      * exists t. rewrite Hkeep by eauto. done.
+      * exists k, t0, p', q'. split_and!; try done; [set_solver|]. rewrite Hkeep by eauto. done.
+    + assert (∀ z, valid s' z → lvl_of s' z = x + 1 →
+                ∃ t, succ s' !! absn z = Some t ∧ t_lvl t = x + 1) as Hlv'.
+      { intros z [_ [t Ht]] Hl. exists t. unfold lvl_of in Hl. rewrite Ht in Hl. done. }
+      split.
+      * destruct Hn as [[-> Hl]|[-> Hl]]; by apply Hlv'.
+      * exists u, (Triple x v w), p, q. split_and!; try done. destruct Hn as [[-> _]|[-> _]]; auto.
+  - intros n H0 Hn. destruct (succ s !! n) as [t|] eqn:Hs.
+    + apply HXF. left. apply (di_new _ _ _ _ _ _ _ HD n H0). eauto.
+    + by apply Hnew.
+Qed.
+
+Lemma dep_fold done L : ∀ (l : list (positive * (Z * Z))) s T G XF,
+  DepInv s0 x L s T G XF → NoDup (l.*1) →
+  (∀ u v w, (u, (v, w)) ∈ l → u ∉ done →
+            u ∈ T ∧ succ s0 !! u = Some (Triple x v w)) →
+  (∀ n, n ∈ T → n ∈ l.*1 ∧ n ∉ done) →
+  ∃ s' G' XF', foldM (dep_body x (x + 1) done) (G, XF) l s = (Ok (G', XF'), s') ∧
+    DepInv s0 x L s' ∅ G' XF'.
+Proof.
+  intros l. induction l as [|[u [v w]] l IH]; intros s T G XF HD Hnd Hl HT.
+  - exists s, G, XF. split; [done|].
+    assert (T = ∅) as <-; [|done].
+    apply elem_of_equiv_empty_L. intros n Hn. destruct (HT n Hn) as [H _].
+    by apply elem_of_nil in H.
+  - cbn [fmap list_fmap fst] in Hnd. apply NoDup_cons in Hnd as [Hu Hnd].
+    cbn [foldM]. destruct (decide (u ∈ done)) as [Hud|Hud].
+    + rewrite (bind_ok _ _ _ _ _ (dep_body_done done G XF u v w s Hud)).
+      apply (IH s T G XF); try done.
+      * intros u' v' w' Hin. apply Hl. by right.
+      * intros n Hn. destruct (HT n Hn) as [H1 H2]. split; [|done].
+        cbn [fmap list_fmap fst] in H1. apply elem_of_cons in H1 as [->|H1]; done.
+    + destruct (Hl u v w ltac:(left) Hud) as [HuT Hu0].
+      destruct (DepInv_step done L s T G XF u v w HD HuT Hud Hu0) as (s1&G1&XF1&Hrun&HD1).
+      rewrite (bind_ok _ _ _ _ _ Hrun).
+      apply (IH s1 (T ∖ {[u]}) G1 XF1); try done.
+      * intros u' v' w' Hin Hud'. destruct (Hl u' v' w' ltac:(by right) Hud') as [H1 H2].
+        split; [|done]. apply elem_of_difference. split; [done|].
+        rewrite elem_of_singleton. intros ->. apply Hu. apply elem_of_list_fmap.
+        by exists (u, (v', w')).
+      * intros n Hn. apply elem_of_difference in Hn as [Hn Hnu].
+        rewrite elem_of_singleton in Hnu. destruct (HT n Hn) as [H1 H2]. split; [|done].
+        cbn [fmap list_fmap fst] in H1. apply elem_of_cons in H1 as [->|H1]; done.
+Qed.
+End fold.
